@@ -137,6 +137,7 @@ pub struct Run {
     pub traces: u64,
     pub level: &'static str,
     pub any_capped: bool,
+    pub distinct_override: Option<u64>,
 }
 
 /// run a subject call, turning a panic into Err(message)
@@ -167,6 +168,7 @@ impl Run {
             traces: 0,
             level: "model_checking",
             any_capped: false,
+            distinct_override: None,
         }
     }
     pub fn over_budget(&self) -> bool {
@@ -302,7 +304,7 @@ impl Run {
         let cases_done: u64 = self.stages.iter().map(|s| s.done).sum();
         let mut cov = Map::new();
         cov.insert("evaluations".into(), json!(evaluations));
-        cov.insert("distinct_nontrivial".into(), json!(self.acc.classes.len()));
+        cov.insert("distinct_nontrivial".into(), json!(self.distinct_override.unwrap_or(self.acc.classes.len() as u64)));
         cov.insert("rule".into(), json!(self.rule));
         cov.insert("samples".into(), json!(samples));
         cov.insert("exhaustive".into(), json!(!self.any_capped));
